@@ -9,6 +9,7 @@ import BufrModel.Lemmas.CoderSrc
 import BufrModel.Lemmas.CoderOpSrc
 import BufrModel.Lemmas.CoderElemSrc
 import BufrModel.Lemmas.CoderWalkSrc
+import BufrModel.Lemmas.CoderCompositeSrc
 import BufrModel.Props.C14Src
 set_option linter.unusedSimpArgs false
 namespace Bufr
@@ -220,5 +221,63 @@ example (cb : PyGen.coder.Coder.process_members.Callbacks PyGen.coder.Descr Nat 
     (PyGen.coder.Coder.process_members cb { ps with data_not_present_count := 1 } 0
       [.ElementDescriptor 12101 "K".toList 2 0 16]).map (fun r => r.1.data_not_present_count) = .ok 0 := by
   rfl
+
+/-! ### the composite descriptors: `process_fixed_replication_descriptor`, `process_delayed_replication_descriptor`,
+  `process_sequence_descriptor`
+
+  Each is the generated method; the recursive call `self.process_members(state, bit_operator, descriptor.members)` is a
+  callback, and that it corresponds to `walkList P (members.map descOf)` is the hypothesis `hw` — what
+  `C01_src_process_members_partial` establishes for the member list one level down.  The right-hand sides are the cases of
+  the model's `walk1` (`Bufr.C08.wDispatch`, `walk1 = wPre (wDispatch)`). -/
+
+/-- fixed replication 1XXYYY: `n_repeats` (the property generated from `descriptors.py`: `id % 1000`) walks of the members
+    = `iterN (yOf id) (walkList P ms)` -/
+theorem C01_src_process_fixed_replication_descriptor {V B : Type} (φ : PyGen.coder.Descr → Elem)
+    (A : PyData PyGen.coder.Descr V → B → StData → Prop)
+    (cb : PyGen.coder.Coder.process_fixed_replication_descriptor.Callbacks PyGen.coder.Descr V B) (P : Prims)
+    (d : PyGen.coder.FixedReplicationDescriptor.Self) (id : Nat) (hid : d.id = id)
+    (hn : d.n_repeats = FixedReplicationDescriptor.n_repeats ⟨id⟩)
+    (hw : ∀ ps b s, AbsSt φ A ps b s → Corr φ A (cb.process_members ps b d.members) (walkList P (d.members.map descOf) s))
+    (ps : PyGen.coder.CoderState.Self PyGen.coder.Descr V) (b : B) (s : St) (h : AbsSt φ A ps b s) :
+    Corr φ A (PyGen.coder.Coder.process_fixed_replication_descriptor cb ps b d)
+      (Bufr.C08.wDispatch P (.fixedRep id (d.members.map descOf)) s) :=
+  fixed_core φ A cb P d (yOf id) (by rw [hn, C14_src_fixed_replication_n_repeats]) hw ps b s h
+
+/-- delayed replication: `NotImplementedError` for the ids 031011 / 031012 is excluded by hypothesis (the template builder
+    gives a replication descriptor a 1XXYYY id); a factor that is not an element descriptor object is refused with
+    `UnknownDescriptor` (= the model's `unknownDescr`); otherwise the factor is processed as an element, the callback
+    `get_value_for_delayed_replication_factor` returns the count the model computes (`P.factorValue >>= factorCount`, or both
+    fail alike), and the members are walked that many times. -/
+theorem C01_src_process_delayed_replication_descriptor {V B : Type} (φ : PyGen.coder.Descr → Elem)
+    (A : PyData PyGen.coder.Descr V → B → StData → Prop)
+    (cb : PyGen.coder.Coder.process_delayed_replication_descriptor.Callbacks PyGen.coder.Descr V B) (P : Prims)
+    (d : PyGen.coder.DelayedReplicationDescriptor.Self) (id : Nat) (hid : d.id ≠ 31011 ∧ d.id ≠ 31012)
+    (hel : ∀ ps b s, AbsSt φ A ps b s → PyGen.coder.Descr.tag d.factor = .ElementDescriptor →
+      Corr φ A (cb.process_element_descriptor ps b d.factor) (Bufr.C08.wDispatch P (descOf d.factor) s))
+    (hval : ∀ ps b s, AbsSt φ A ps b s →
+      ValCorr (cb.get_value_for_delayed_replication_factor ps) (P.factorValue s >>= factorCount))
+    (hw : ∀ ps b s, AbsSt φ A ps b s → Corr φ A (cb.process_members ps b d.members) (walkList P (d.members.map descOf) s))
+    (ps : PyGen.coder.CoderState.Self PyGen.coder.Descr V) (b : B) (s : St) (h : AbsSt φ A ps b s) :
+    Corr φ A (PyGen.coder.Coder.process_delayed_replication_descriptor cb ps b d)
+      (Bufr.C08.wDispatch P (.delayedRep id (descOf d.factor) (d.members.map descOf)) s) :=
+  delayed_core φ A cb P d id hid hel hval hw ps b s h
+
+/-- a sequence descriptor: its members are walked -/
+theorem C01_src_process_sequence_descriptor {V B : Type} (φ : PyGen.coder.Descr → Elem)
+    (A : PyData PyGen.coder.Descr V → B → StData → Prop)
+    (cb : PyGen.coder.Coder.process_sequence_descriptor.Callbacks PyGen.coder.Descr V B) (P : Prims)
+    (d : PyGen.coder.SequenceDescriptor.Self) (id : Nat)
+    (hw : ∀ ps b s, AbsSt φ A ps b s → Corr φ A (cb.process_members ps b d.members) (walkList P (d.members.map descOf) s))
+    (ps : PyGen.coder.CoderState.Self PyGen.coder.Descr V) (b : B) (s : St) (h : AbsSt φ A ps b s) :
+    Corr φ A (PyGen.coder.Coder.process_sequence_descriptor cb ps b d)
+      (Bufr.C08.wDispatch P (.seq id (d.members.map descOf)) s) :=
+  sequence_core φ A cb P d hw ps b s h
+
+/-- the hypotheses are satisfiable: an empty member list, a `process_members` that returns at once -/
+example : ∃ (cb : PyGen.coder.Coder.process_sequence_descriptor.Callbacks PyGen.coder.Descr Nat Nat)
+    (d : PyGen.coder.SequenceDescriptor.Self),
+    ∀ ps b s, AbsSt (fun _ => default) (fun _ _ _ => True) ps b s →
+      Corr (fun _ => default) (fun _ _ _ => True) (cb.process_members ps b d.members) (walkList failPrims (d.members.map descOf) s) :=
+  ⟨⟨fun ps b _ => .ok (ps, b)⟩, ⟨301001, []⟩, fun _ _ _ h => h⟩
 
 end Bufr
